@@ -44,6 +44,9 @@ Section W.
   Qed.
 End W.
 
+Lemma slice_at_end' y z : blen y = 8 -> slice 0 8 (y ++ z) = Some y.
+Proof. intros H. apply (slice_at [] y z 0 8); [reflexivity | cbn; lia]. Qed.
+
 Lemma rd32_app4 a b c d rest : rd32 (a :: b :: c :: d :: rest) = Some (a * 16777216 + b * 65536 + c * 256 + d).
 Proof. reflexivity. Qed.
 
@@ -80,39 +83,35 @@ Proof.
   destruct name; [|rewrite blen_cons in Hn; lia]. destruct payload; [|rewrite blen_cons in Hp; lia]. reflexivity.
 Qed.
 
+Lemma shared_head name payload :
+  slice 0 8 (shared_frame name payload) = Some (be32 (4 + 4 + blen name + blen payload) ++ be32 (blen name)).
+Proof.
+  unfold shared_frame. rewrite (app_assoc (be32 _) (be32 _)).
+  apply (slice_at [] (be32 (4 + 4 + blen name + blen payload) ++ be32 (blen name)) (name ++ payload) 0 8); reflexivity.
+Qed.
+
+Lemma head_mismatch t nl magic c :
+  rd32 magic = Some c -> t < 4294967296 -> t <> c -> beq (be32 t ++ be32 nl) magic = false.
+Proof.
+  intros Hm Ht Hne. destruct (beq (be32 t ++ be32 nl) magic) eqn:E; [|reflexivity]. exfalso.
+  apply beq_spec in E. rewrite <- E in Hm. rewrite rd32_be32 in Hm by assumption. injection Hm as Hm. congruence.
+Qed.
+
 Theorem terminated_rejects_shared name payload :
   8 + blen name + blen payload < 3735923824 -> terminated_deser (shared_frame name payload) = None.
 Proof.
   intros Hsz. unfold terminated_deser.
-  destruct (N.ltb_spec (blen (shared_frame name payload)) 20); [reflexivity|].
-  destruct (slice 0 8 (shared_frame name payload)) as [mg|] eqn:Es; [|reflexivity].
-  destruct (beq mg terminated_magic) eqn:Eb; [|reflexivity]. exfalso.
-  apply beq_spec in Eb. subst mg.
-  unfold slice in Es. destruct ((0 <=? 8) && (8 <=? blen (shared_frame name payload))); [|discriminate].
-  injection Es as Es. cbn in Es. unfold shared_frame in Es.
-  remember (4 + 4 + blen name + blen payload) as t. unfold be32 at 1 in Es. cbn in Es.
-  injection Es as E1 E2 E3 E4 _.
-  assert (Ht : t mod 4294967296 = 222 * 16777216 + 173 * 65536 + 172 * 256 + 112).
-  { pose proof (rd32_be32_mod t []) as R. unfold be32 in R. cbn in R. rewrite E1, E2, E3, E4 in R. injection R as R. lia. }
-  rewrite N.mod_small in Ht by lia. lia.
+  destruct (blen (shared_frame name payload) <? 20); [reflexivity|].
+  rewrite shared_head. rewrite (head_mismatch _ _ terminated_magic 3735923824); [reflexivity | reflexivity | lia | lia].
 Qed.
 
 Theorem delivery_rejects_shared name payload :
   8 + blen name + blen payload < 4294967295 -> delivery_deser (shared_frame name payload) = None.
 Proof.
   intros Hsz. unfold delivery_deser.
-  destruct (N.ltb_spec (blen (shared_frame name payload)) 8); [reflexivity|].
-  destruct (slice 0 8 (shared_frame name payload)) as [mg|] eqn:Es; [|reflexivity].
-  destruct (slice_from 8 (shared_frame name payload)); [|reflexivity].
-  destruct (beq mg delivery_magic) eqn:Eb; [|reflexivity]. exfalso.
-  apply beq_spec in Eb. subst mg.
-  unfold slice in Es. destruct ((0 <=? 8) && (8 <=? blen (shared_frame name payload))); [|discriminate].
-  injection Es as Es. cbn in Es. unfold shared_frame in Es.
-  remember (4 + 4 + blen name + blen payload) as t. unfold be32 at 1 in Es. cbn in Es.
-  injection Es as E1 E2 E3 E4 _.
-  assert (Ht : t mod 4294967296 = 255 * 16777216 + 255 * 65536 + 255 * 256 + 255).
-  { pose proof (rd32_be32_mod t []) as R. unfold be32 in R. cbn in R. rewrite E1, E2, E3, E4 in R. injection R as R. lia. }
-  rewrite N.mod_small in Ht by lia. lia.
+  destruct (blen (shared_frame name payload) <? 8); [reflexivity|].
+  rewrite shared_head. destruct (slice_from 8 (shared_frame name payload)); [|reflexivity].
+  rewrite (head_mismatch _ _ delivery_magic 4294967295); [reflexivity | reflexivity | lia | lia].
 Qed.
 
 (* the three internal formats are mutually exclusive *)
@@ -121,19 +120,68 @@ Theorem internal_formats_disjoint path nanos env :
   poison_deser (terminated_ser path nanos) = false /\ delivery_deser (terminated_ser path nanos) = None /\
   poison_deser (delivery_ser env) = false /\ terminated_deser (delivery_ser env) = None.
 Proof.
+  assert (S1 : forall rest, slice 0 8 (terminated_magic ++ rest) = Some terminated_magic)
+    by (intros rest; apply (slice_at_end' terminated_magic rest); reflexivity).
+  assert (S2 : forall rest, slice 0 8 (delivery_magic ++ rest) = Some delivery_magic)
+    by (intros rest; apply (slice_at_end' delivery_magic rest); reflexivity).
   repeat split; try (vm_compute; reflexivity).
   - unfold poison_deser, terminated_ser. rewrite !blen_app, blen_be32, blen_be64. change (blen terminated_magic) with 8.
     destruct (N.eqb_spec (8 + (4 + (blen path + 8))) 8); [lia|reflexivity].
-  - unfold delivery_deser, terminated_ser.
-    destruct (blen (terminated_magic ++ be32 (blen path) ++ path ++ be64 nanos) <? 8); [reflexivity|].
-    rewrite (slice_at [] terminated_magic _ 0 8) by reflexivity.
-    destruct (slice_from 8 _); reflexivity.
+  - unfold delivery_deser, terminated_ser. rewrite S1.
+    destruct (blen _ <? 8); [reflexivity|]. destruct (slice_from 8 _); reflexivity.
   - unfold poison_deser, delivery_ser. rewrite blen_app. change (blen delivery_magic) with 8.
     destruct (N.eqb_spec (8 + blen env) 8) as [E|E]; [|reflexivity].
     destruct env; [reflexivity | rewrite blen_cons in E; lia].
-  - unfold terminated_deser, delivery_ser.
-    destruct (blen (delivery_magic ++ env) <? 20); [reflexivity|].
-    rewrite <- (app_nil_r env) at 1.
-    assert (E : slice 0 8 (delivery_magic ++ env) = Some delivery_magic) by (apply (slice_at_end [] delivery_magic) || idtac).
-    all: try reflexivity.
-Abort.
+  - unfold terminated_deser, delivery_ser. rewrite S2. destruct (blen _ <? 20); reflexivity.
+Qed.
+
+(* the internal formats round-trip through their own decoders *)
+Theorem terminated_roundtrip path nanos :
+  blen path < 4294967296 -> nanos < 18446744073709551616 ->
+  terminated_deser (terminated_ser path nanos) = Some (path, nanos).
+Proof.
+  intros Hp Hn. unfold terminated_deser, terminated_ser.
+  assert (Hl : blen (terminated_magic ++ be32 (blen path) ++ path ++ be64 nanos) = 20 + blen path).
+  { rewrite !blen_app, blen_be32, blen_be64. change (blen terminated_magic) with 8. lia. }
+  rewrite Hl. rewrite ltb_false by lia.
+  rewrite (slice_at_end' terminated_magic) by reflexivity. rewrite beq_refl. cbn [negb].
+  rewrite (rd32_at_app terminated_magic (blen path) _ 8) by (try reflexivity; assumption).
+  destruct (N.eqb_spec (12 + blen path + 8) (20 + blen path)); [|lia]. cbn [negb].
+  assert (E1 : slice 12 (12 + blen path) (terminated_magic ++ be32 (blen path) ++ path ++ be64 nanos) = Some path).
+  { rewrite (app_assoc terminated_magic). apply slice_at; rewrite ?blen_app, ?blen_be32; reflexivity. }
+  assert (E2 : slice_from (12 + blen path) (terminated_magic ++ be32 (blen path) ++ path ++ be64 nanos) = Some (be64 nanos)).
+  { rewrite (app_assoc terminated_magic). rewrite (app_assoc (terminated_magic ++ _) path).
+    apply slice_from_app. rewrite !blen_app, blen_be32. change (blen terminated_magic) with 8. lia. }
+  rewrite E1, E2. rewrite <- (app_nil_r (be64 nanos)). rewrite rd64_be64 by assumption. reflexivity.
+Qed.
+
+Theorem delivery_roundtrip env : delivery_deser (delivery_ser env) = Some env.
+Proof.
+  unfold delivery_deser, delivery_ser. rewrite blen_app. change (blen delivery_magic) with 8.
+  rewrite ltb_false by lia.
+  rewrite (slice_at_end' delivery_magic env) by reflexivity. rewrite (slice_from_app delivery_magic env 8) by reflexivity.
+  rewrite beq_refl. reflexivity.
+Qed.
+
+Theorem poison_roundtrip : poison_deser poison_ser = true.
+Proof. reflexivity. Qed.
+
+(* frameTypeName on a shared-layout frame is its type name *)
+Theorem frame_type_name_shared name payload :
+  0 < blen name -> 8 + blen name + blen payload < 4294967296 ->
+  frame_type_name (shared_frame name payload) = Some name.
+Proof.
+  intros Hn Hsz. unfold frame_type_name.
+  assert (Hl : blen (shared_frame name payload) = 8 + blen name + blen payload) by apply blen_frame.
+  rewrite Hl. rewrite ltb_false by lia.
+  unfold shared_frame. rewrite rd32_at_0 by lia.
+  rewrite (rd32_at_app (be32 _) (blen name) _ 4) by (rewrite ?blen_be32; lia).
+  rewrite (ltb_false _ 8) by lia. rewrite (ltb_false (8 + blen name + blen payload)) by lia.
+  destruct (N.eqb_spec (blen name) 0); [lia|]. rewrite ltb_false by lia. cbn [orb].
+  rewrite (app_assoc (be32 _) (be32 _)). apply slice_at; rewrite ?blen_app, ?blen_be32; lia.
+Qed.
+
+(* and it fails on the internal frames (their "total length" exceeds the data) *)
+Theorem frame_type_name_internal :
+  frame_type_name poison_ser = None.
+Proof. vm_compute. reflexivity. Qed.
